@@ -1030,169 +1030,177 @@ def make_main(plan: dict):
         sim.user["wlist"] = wlist
         for rnd in range(rounds):
             h.round = rnd
-            try:
-                async with AsyncExitStack() as outer_stack:
-                    if plan.get("nest"):
-                        outer = await outer_stack.enter_async_context(Context())
-                        outer.add_resource(object(), "outer_marker")
+            # (some plans leave the calling context under a cancellation: xsc)
+            xsc = CancelScope()
+            with xsc:
+                try:
+                    async with AsyncExitStack() as outer_stack:
+                        if plan.get("nest"):
+                            outer = await outer_stack.enter_async_context(Context())
+                            outer.add_resource(object(), "outer_marker")
 
-                        async def check_outer(outer: Context = outer, rnd: int = rnd) -> None:
-                            # runs after the calling context has been left: nothing the
-                            # components published may have leaked into the enclosing one
-                            leaks = []
-                            for t_ in RT:
-                                leaks += [f"{t_.__name__}:{k}" for k in outer.get_resources(t_)]
-                            for _p, n_ in walk(plan["tree"]):
-                                for ph_ in ("prepare", "start"):
-                                    for a_ in n_.get(ph_) or ():
-                                        if a_[0] == "pub" and a_[1].get("fac"):
-                                            nm_ = final_name(n_, a_[1], ph_)
-                                            try:
-                                                got_ = outer.get_resource_nowait(RT[a_[1]["t"]], nm_, optional=True)
-                                            except Exception:  # noqa: BLE001  (an async factory is there)
-                                                got_ = "factory"
-                                            if got_ is not None:
-                                                leaks.append(f"factory {a_[1]['rid']}:{nm_}")
-                            sim.log("outer_view", leaks=sorted(set(leaks)), round=rnd)
+                            async def check_outer(outer: Context = outer, rnd: int = rnd) -> None:
+                                # runs after the calling context has been left: nothing the
+                                # components published may have leaked into the enclosing one
+                                leaks = []
+                                for t_ in RT:
+                                    leaks += [f"{t_.__name__}:{k}" for k in outer.get_resources(t_)]
+                                for _p, n_ in walk(plan["tree"]):
+                                    for ph_ in ("prepare", "start"):
+                                        for a_ in n_.get(ph_) or ():
+                                            if a_[0] == "pub" and a_[1].get("fac"):
+                                                nm_ = final_name(n_, a_[1], ph_)
+                                                try:
+                                                    got_ = outer.get_resource_nowait(RT[a_[1]["t"]], nm_, optional=True)
+                                                except Exception:  # noqa: BLE001  (an async factory is there)
+                                                    got_ = "factory"
+                                                if got_ is not None:
+                                                    leaks.append(f"factory {a_[1]['rid']}:{nm_}")
+                                sim.log("outer_view", leaks=sorted(set(leaks)), round=rnd)
 
-                        outer_stack.push_async_callback(check_outer)
-                    real_ctx = Context()
-                    if plan.get("noisy_listener") is not None:
-                        # an earlier subscriber of resource_added with a tiny queue nobody
-                        # drains: it overflows at once and must not affect the waiters
-                        await outer_stack.enter_async_context(
-                            real_ctx.resource_added.stream_events(max_queue_size=plan["noisy_listener"])
+                            outer_stack.push_async_callback(check_outer)
+                        real_ctx = Context()
+                        if plan.get("noisy_listener") is not None:
+                            # an earlier subscriber of resource_added with a tiny queue nobody
+                            # drains: it overflows at once and must not affect the waiters
+                            await outer_stack.enter_async_context(
+                                real_ctx.resource_added.stream_events(max_queue_size=plan["noisy_listener"])
+                            )
+                        # a listener on the calling context (opened before it is entered) hears
+                        # every publication the components make, under the name it really got
+                        ev_stream = await outer_stack.enter_async_context(
+                            real_ctx.resource_added.stream_events(max_queue_size=100000)
                         )
-                    # a listener on the calling context (opened before it is entered) hears
-                    # every publication the components make, under the name it really got
-                    ev_stream = await outer_stack.enter_async_context(
-                        real_ctx.resource_added.stream_events(max_queue_size=100000)
-                    )
-                    ctx = await outer_stack.enter_async_context(_Logged(real_ctx, sim, rnd))
-                    h.real = ctx
-                    h.instances = {}
-                    h.cctx = {}
-                    h.block_ended = anyio.Event()
-                    h.sc_done = anyio.Event()
-                    t0 = sim.now()
-                    sim.log("sc_call", t=t0, round=rnd)
-                    kw: dict[str, Any] = {}
-                    if "timeout" in plan:
-                        kw["timeout"] = plan["timeout"]
-                    outcome = "returned"
-                    side = None
-                    tweaked: list = []
-                    if plan.get("side"):
-                        # helper tasks living beside the start-up (same calling context)
-                        side = anyio.create_task_group()
-                        await side.__aenter__()
-                        h.side_tg = side
-                        if plan.get("tweak"):
-                            # somebody edits the configuration object right after handing it
-                            # to start_component(): the tree was read from it at the call
-                            async def tweaker() -> None:
-                                seen_: set = set()
-                                for sub_ in (cfg.get("components") or {}).values():
-                                    if isinstance(sub_, dict) and id(sub_) not in seen_:
-                                        seen_.add(id(sub_))
-                                        tweaked.append((sub_, "a" in sub_, sub_.get("a")))
-                                        sub_["a"] = "TWEAKED"
-                                sim.log("tweaked", n=len(tweaked), round=rnd)
+                        ctx = await outer_stack.enter_async_context(_Logged(real_ctx, sim, rnd))
+                        h.real = ctx
+                        h.instances = {}
+                        h.cctx = {}
+                        h.block_ended = anyio.Event()
+                        h.sc_done = anyio.Event()
+                        t0 = sim.now()
+                        sim.log("sc_call", t=t0, round=rnd)
+                        kw: dict[str, Any] = {}
+                        if "timeout" in plan:
+                            kw["timeout"] = plan["timeout"]
+                        outcome = "returned"
+                        side = None
+                        tweaked: list = []
+                        if plan.get("side"):
+                            # helper tasks living beside the start-up (same calling context)
+                            side = anyio.create_task_group()
+                            await side.__aenter__()
+                            h.side_tg = side
+                            if plan.get("tweak"):
+                                # somebody edits the configuration object right after handing it
+                                # to start_component(): the tree was read from it at the call
+                                async def tweaker() -> None:
+                                    seen_: set = set()
+                                    for sub_ in (cfg.get("components") or {}).values():
+                                        if isinstance(sub_, dict) and id(sub_) not in seen_:
+                                            seen_.add(id(sub_))
+                                            tweaked.append((sub_, "a" in sub_, sub_.get("a")))
+                                            sub_["a"] = "TWEAKED"
+                                    sim.log("tweaked", n=len(tweaked), round=rnd)
 
-                            side.start_soon(tweaker, name="w:tweaker")
-                    try:
-                        if plan.get("outer_cancel") is not None:
-                            with move_on_after(plan["outer_cancel"]) as scope:
-                                comp = await start_component(root_type, cfg, **kw)
-                            if scope.cancelled_caught:
-                                outcome = "outer_cancelled"
-                                sim.fault("start_cancelled")
-                                sim.log("sc_cancelled", t=sim.now(), round=rnd)
-                        else:
-                            comp = await start_component(root_type, cfg, **kw)
-                    except BaseException as e:
-                        if is_cancel(e) and side is not None:
-                            side.cancel_scope.cancel()
-                            with CancelScope(shield=True):
-                                await side.__aexit__(None, None, None)
-                            side = None
-                        if is_cancel(e):
-                            raise
-                        outcome = "raised"
-                        d: dict[str, Any] = {"cls": type(e).__name__, "t": sim.now(), "round": rnd}
-                        if isinstance(e, ComponentStartError):
-                            d.update(
-                                phase=e.phase,
-                                path=e.path,
-                                ctype=getattr(e.component_type, "__name__", str(e.component_type)),
-                                cause=getattr(e.__cause__, "tag", type(e.__cause__).__name__),
-                            )
-                        else:
-                            d["msg"] = str(e)[:80]
-                            d["tag"] = getattr(e, "tag", None)
-                        sim.log("sc_raise", **d)
-                    else:
-                        if outcome == "returned":
-                            sim.log(
-                                "sc_return",
-                                t=sim.now(),
-                                same=comp is h.instances.get(""),
-                                round=rnd,
-                            )
-                    h.sc_done.set()
-                    if side is not None:
-                        # (let the helpers have their turn, then put the edited values back)
-                        await sim.pause(2, 0.0)
-                        side.cancel_scope.cancel()
-                        await side.__aexit__(None, None, None)
-                        h.side_tg = None
-                        for sub_, had_, old_ in tweaked:
-                            if had_:
-                                sub_["a"] = old_
+                                side.start_soon(tweaker, name="w:tweaker")
+                        try:
+                            if plan.get("outer_cancel") is not None:
+                                with move_on_after(plan["outer_cancel"]) as scope:
+                                    comp = await start_component(root_type, cfg, **kw)
+                                if scope.cancelled_caught:
+                                    outcome = "outer_cancelled"
+                                    sim.fault("start_cancelled")
+                                    sim.log("sc_cancelled", t=sim.now(), round=rnd)
                             else:
-                                sub_.pop("a", None)
-                    # configuration must be intact after every ending
-                    ids1: dict = {}
-                    _ids(cfg, ids1)
-                    sim.log(
-                        "cfg_after",
-                        equal=cfg == snap,
-                        same_objects=ids0 == ids1,
-                        outcome=outcome,
-                        round=rnd,
-                        now=_j(cfg) if cfg != snap else None,
-                    )
-                    for hp, hk in h.hard_kw.items():
-                        want_hk = (dict(walk(plan["tree"]))[hp].get("hard") or {}).get("kw", {})
-                        if hk != want_hk:
-                            sim.log("hard_kw_mutated", path=hp, now=_j(hk), was=_j(want_hk), round=rnd)
-                    # keep running: nothing of the tree may move after start_component ended
-                    await anyio.sleep(linger)
-                    sim.log("linger_end", round=rnd)
-                    # everything published (per the log) must be resolvable here
-                    for r in list(sim.trace):
-                        if r[4] == "pub" and not r[5]["fac"] and r[5].get("round", rnd) == rnd:
-                            pass
-                    await h_post(h, sim, rnd)
-                    from asphalt.core import ResourceEvent as _RE
+                                comp = await start_component(root_type, cfg, **kw)
+                        except BaseException as e:
+                            if is_cancel(e) and side is not None:
+                                side.cancel_scope.cancel()
+                                with CancelScope(shield=True):
+                                    await side.__aexit__(None, None, None)
+                                side = None
+                            if is_cancel(e):
+                                raise
+                            outcome = "raised"
+                            d: dict[str, Any] = {"cls": type(e).__name__, "t": sim.now(), "round": rnd}
+                            if isinstance(e, ComponentStartError):
+                                d.update(
+                                    phase=e.phase,
+                                    path=e.path,
+                                    ctype=getattr(e.component_type, "__name__", str(e.component_type)),
+                                    cause=getattr(e.__cause__, "tag", type(e.__cause__).__name__),
+                                )
+                            else:
+                                d["msg"] = str(e)[:80]
+                                d["tag"] = getattr(e, "tag", None)
+                            sim.log("sc_raise", **d)
+                        else:
+                            if outcome == "returned":
+                                sim.log(
+                                    "sc_return",
+                                    t=sim.now(),
+                                    same=comp is h.instances.get(""),
+                                    round=rnd,
+                                )
+                        h.sc_done.set()
+                        if side is not None:
+                            # (let the helpers have their turn, then put the edited values back)
+                            await sim.pause(2, 0.0)
+                            side.cancel_scope.cancel()
+                            await side.__aexit__(None, None, None)
+                            h.side_tg = None
+                            for sub_, had_, old_ in tweaked:
+                                if had_:
+                                    sub_["a"] = old_
+                                else:
+                                    sub_.pop("a", None)
+                        # configuration must be intact after every ending
+                        ids1: dict = {}
+                        _ids(cfg, ids1)
+                        sim.log(
+                            "cfg_after",
+                            equal=cfg == snap,
+                            same_objects=ids0 == ids1,
+                            outcome=outcome,
+                            round=rnd,
+                            now=_j(cfg) if cfg != snap else None,
+                        )
+                        for hp, hk in h.hard_kw.items():
+                            want_hk = (dict(walk(plan["tree"]))[hp].get("hard") or {}).get("kw", {})
+                            if hk != want_hk:
+                                sim.log("hard_kw_mutated", path=hp, now=_j(hk), was=_j(want_hk), round=rnd)
+                        # keep running: nothing of the tree may move after start_component ended
+                        await anyio.sleep(linger)
+                        sim.log("linger_end", round=rnd)
+                        # everything published (per the log) must be resolvable here
+                        for r in list(sim.trace):
+                            if r[4] == "pub" and not r[5]["fac"] and r[5].get("round", rnd) == rnd:
+                                pass
+                        await h_post(h, sim, rnd)
+                        from asphalt.core import ResourceEvent as _RE
 
-                    ctx.resource_added.dispatch(_RE((), "__sentinel__", None, False))
-                    with move_on_after(5.0, shield=True):
-                        async for ev in ev_stream:
-                            if ev.resource_name == "__sentinel__":
-                                break
-                            names_ = [_tn(t_) for t_ in ev.resource_types]
-                            if all(_re.match(r"^(list\[|tuple\[)?T\d+", n_) for n_ in names_):
-                                sim.log("res_event", types=names_, name=ev.resource_name, is_factory=ev.is_factory, desc=ev.resource_description, round=rnd)
-                    sim.log("block_end", round=rnd)
+                        ctx.resource_added.dispatch(_RE((), "__sentinel__", None, False))
+                        with move_on_after(5.0, shield=True):
+                            async for ev in ev_stream:
+                                if ev.resource_name == "__sentinel__":
+                                    break
+                                names_ = [_tn(t_) for t_ in ev.resource_types]
+                                if all(_re.match(r"^(list\[|tuple\[)?T\d+", n_) for n_ in names_):
+                                    sim.log("res_event", types=names_, name=ev.resource_name, is_factory=ev.is_factory, desc=ev.resource_description, round=rnd)
+                        sim.log("block_end", round=rnd)
+                        h.block_ended.set()
+                        if plan.get("exit_cancel"):
+                            # the calling context is left by a cancellation: every callback the
+                            # components registered is still invoked
+                            sim.fault("exit_cancelled")
+                            xsc.cancel()
+                except BaseException as e:
                     h.block_ended.set()
-            except BaseException as e:
-                h.block_ended.set()
-                sim.log("ctx_exit", exc=f"{type(e).__name__}: {str(e)[:80]}", round=rnd)
-                if contains_cancel(e) or sim.aborting:
-                    raise
-            else:
-                sim.log("ctx_exit", exc=None, round=rnd)
+                    sim.log("ctx_exit", exc=f"{type(e).__name__}: {str(e)[:80]}", round=rnd)
+                    if contains_cancel(e) or sim.aborting:
+                        raise
+                else:
+                    sim.log("ctx_exit", exc=None, round=rnd)
         if plan.get("ccprobe"):
             await cc_probe(sim)
         sizes = sorted({str(w.message).split("(")[1].split(")")[0] for w in wlist if "Queue full (" in str(w.message)})
@@ -1980,6 +1988,8 @@ def oracle(sim: Sim, plan: dict) -> list[dict]:
             # next one begins and before the calling context has been left
             open_td: Any = None
             for r in tr:
+                if oplan.get("exit_cancel"):
+                    break  # (callbacks cancelled at their first checkpoint do not finish)
                 if r[4] == "td_run" and not str(r[5]["td"]).startswith(("rogue_", "rtd_")):
                     if open_td is not None and not sim.aborting:
                         v(rule, "teardown_unfinished", f"teardown callback {open_td} had begun but not finished (what it returned was not awaited to the end?) when {r[5]['td']} began")
@@ -2048,7 +2058,7 @@ def oracle(sim: Sim, plan: dict) -> list[dict]:
             if r[4] == "outer_view" and r[5]["leaks"]:
                 v("C05.ownership", "leaked_to_enclosing_context", f"after the calling context was left the enclosing context holds {r[5]['leaks']}")
                 v("C02.component_parent", "leak_up", f"after the calling context was left the enclosing context holds {r[5]['leaks']}")
-            if r[4] == "ctx_exit" and r[5]["exc"] is not None:
+            if r[4] == "ctx_exit" and r[5]["exc"] is not None and not oplan.get("exit_cancel"):
                 v("C05.ownership", "exit_exception", f"leaving the calling context raised {r[5]['exc']}")
             if r[4] == "childctx":
                 d = r[5]
@@ -2750,6 +2760,10 @@ def gen(rng: random.Random, tier: str, prop: str) -> dict:
             )
     if prop == "C05" and "twice" not in plan and r >= fail_p + timeout_p and rng.random() < 0.06:
         plan["twice"] = True
+    if prop == "C05" and r >= fail_p + timeout_p and rng.random() < 0.08 and not any(
+        a_[0] in ("svc", "tf", "sub", "childctx") or (a_[0] == "td" and a_[1].get("nested")) for _p, n_ in nodes for ph_ in ("prepare", "start") for a_ in n_.get(ph_) or ()
+    ):
+        plan["exit_cancel"] = True
     if prop in ("C06", "C05", "C18") and rng.random() < 0.15:
         plan["noisy_listener"] = rng.choice((0, 1, 2))
     if want_sp_tail and not any(a_[0] == "fail" for _p, n_ in nodes for ph_ in ("prepare", "start") for a_ in n_.get(ph_) or ()) and not any(
